@@ -410,27 +410,30 @@ def run_cvc5(smt2, timeout_s=60):
 
 
 def check_cover(vc, pcs, rlimit=RLIMIT):
-    """sat check: is the conjunction (or one of several) satisfiable?"""
+    """Vacuity guard: is the path condition satisfiable?  Checked on the quantifier-free part of the
+    hypotheses (an unsat answer there proves vacuity; sat there is the reachability evidence)."""
+    from .engine import _has_quantifier
     if pcs and isinstance(pcs[0], list):
         alts = pcs
     else:
         alts = [pcs]
     if not alts:
         return "unreachable"
+    worst = "unreachable"
     for pc in alts:
         s = z3.Solver()
-        s.set("rlimit", rlimit)
-        s.set("timeout", 20000)
-        for ax in vc.axioms():
+        s.set("timeout", 5000)
+        for ax in vc.u.literal_axioms():
             s.add(ax)
         for f in pc:
-            s.add(f)
+            if not _has_quantifier(f):
+                s.add(f)
         r = s.check()
         if r == z3.sat:
             return "reachable"
         if r == z3.unknown:
-            return "unknown"
-    return "unreachable"
+            worst = "unknown"
+    return worst
 
 
 def model_text(m, limit=60):
